@@ -527,7 +527,7 @@ def rule_ver(ctx, F):
             for st in b.blocks[bi]["s"]:
                 if st[0] == "=" and len(st[1]) > 1:
                     rv = deep_strip(b.term_of_rvalue(st[2]))
-                    if rv[0] == "agg" and rv[1][:3] == ("adt", "core::option::Option", "None") and not b.blocks[bi]["c"]:
+                    if rv[0] == "agg" and rv[1][:3] == ("adt", "core::option::Option", "None") and not b.blocks[bi].get("c"):
                         fs = bool_facts(b, bi, F)
                         notsole = any(tt[0] == "bin" and tt[1] == "Eq" and (not vv) and const_value(tt[3]) == 1 for tt, vv in fs)
                         if notsole:
@@ -563,7 +563,7 @@ def rule_ver(ctx, F):
         for bi in b.reachable_blocks():
             for st in b.blocks[bi]["s"]:
                 rv = deep_strip(b.term_of_rvalue(st[2])) if st[0] == "=" and len(st[1]) > 1 else None
-                if rv is not None and rv[0] == "agg" and rv[1][:3] == ("adt", "core::option::Option", "Some") and not b.blocks[bi]["c"]:
+                if rv is not None and rv[0] == "agg" and rv[1][:3] == ("adt", "core::option::Option", "Some") and not b.blocks[bi].get("c"):
                     fs = bool_facts(b, bi, F)
                     same = any(vv and ((tt[0] == "call" and (tt[1] or "").endswith("PartialEq::eq")) or (tt[0] == "bin" and tt[1] == "Eq")) and "arg2" in show(tt) for tt, vv in fs)
                     over.append(same)
